@@ -8,6 +8,7 @@ structure SuiteState where
   b : BState := { ring := Ring.new 16 }
   eng : Store := []
   ring : Ring := Ring.new 8
+  dellog : List (Bool × Bytes) := []
   deriving Repr
 
 def quirksOf (name : String) : Quirks :=
@@ -216,10 +217,13 @@ def stepBackend (st : SuiteState) (toks : List String) : SuiteState × String :=
     | .panic => (st, "count PANIC")
   | ["compact", r] =>
     let (res, b) := doCompact c st.b (atou r) (parseMask opts)
+    let st := { st with dellog := compactTrace c st.b (atou r) (parseMask opts) }
     match res with
     | .ok hdr => ({ st with b := b }, s!"compact {hdr}")
     | .error e => ({ st with b := b }, s!"compact err {errStr e}")
     | .panic => ({ st with b := b }, "compact PANIC")
+  | ["dellog"] =>
+    (st, s!"dellog {joinOr (st.dellog.map (fun t => (if t.1 then "delcur:" else "del:") ++ hx t.2)) ","}")
   | ["parts", a, b] => (st, s!"parts {joinOr ((doPartitions c (unhx a) (unhx b)).map hx) ","}")
   | ["stream", a, b, r] =>
     match doStream c st.b (unhx a) (unhx b) (atou r) with
